@@ -118,6 +118,9 @@ impl Property for C07 {
 
     fn run(&self, src: &mut Src, rep: &mut Report) -> Verdict {
         let s = gen_scenario(src, false);
+        if crate::scenario::collision_pair_blocks_registration(&s) {
+            return Verdict::Discard("two metric names with equal 64-bit FNV-1a hash and equal constant-label values: the second registration is refused (known finding, see C15)");
+        }
         let mut names: Vec<&str> = s.colls.iter().map(|c| c.name.as_str()).collect();
         names.sort();
         let shared = names.windows(2).any(|w| w[0] == w[1]);
